@@ -113,8 +113,34 @@ func (s *scriptReader) Read(p []byte) (int, error) {
 	}
 }
 
+// richWriter is a packet writer that also has io.Writer / io.ReaderFrom methods of its own (a sink that embeds a
+// buffer or a file has them): the adapters must still deliver packet by packet through WritePacket; bytes that reach
+// these methods instead are counted as raw deliveries.
+type richWriter struct {
+	*recWriter
+	raw int
+}
+
+func (w *richWriter) Write(p []byte) (int, error) { w.raw += len(p) + 1; return len(p), nil }
+func (w *richWriter) ReadFrom(r io.Reader) (int64, error) {
+	n, err := io.Copy(io.Discard, r)
+	w.raw += int(n) + 1
+	return n, err
+}
+
+var c18Rich *richWriter // the rich writer of the adapter made last (nil for the plain kinds)
+
 func c18Adapter(kind string, w *recWriter) (io.Writer, io.ReaderFrom) {
+	c18Rich = nil
 	switch kind {
+	case "IOWriter+rich":
+		c18Rich = &richWriter{recWriter: w}
+		a := packet.IOWriter(c18Rich)
+		return a, a.(io.ReaderFrom)
+	case "IOWriteCloser+rich":
+		c18Rich = &richWriter{recWriter: w}
+		a := packet.IOWriteCloser(c18Rich)
+		return a, a.(io.ReaderFrom)
 	case "IOWriter":
 		a := packet.IOWriter(w)
 		return a, a.(io.ReaderFrom)
@@ -130,7 +156,7 @@ func c18Adapter(kind string, w *recWriter) (io.Writer, io.ReaderFrom) {
 	}
 }
 
-var c18Adapters = []string{"IOWriter", "IOWriteCloser", "Func", "NopCloser"}
+var c18Adapters = []string{"IOWriter", "IOWriteCloser", "Func", "NopCloser", "IOWriter+rich", "IOWriteCloser+rich"}
 
 func c18Stream(r *rand.Rand, n int) []byte {
 	b := make([]byte, n)
@@ -149,7 +175,7 @@ func (c18) Gen(tier string, seed int64, emit func([]Ev)) {
 		n = 60000
 	}
 	for i := 0; i < n; i++ {
-		ad := c18Adapters[r.Intn(4)]
+		ad := c18Adapters[r.Intn(len(c18Adapters))]
 		npk := r.Intn(5)
 		extra := 0
 		if r.Intn(3) == 0 {
@@ -285,7 +311,7 @@ func (c18) Gen(tier string, seed int64, emit func([]Ev)) {
 		if i%4 == 3 {
 			failAt = []int{348, 349, 350, 1}[r.Intn(4)]
 		}
-		ad := c18Adapters[i%4]
+		ad := c18Adapters[i%len(c18Adapters)]
 		emit([]Ev{{"op": "readfrom", "adapter": ad, "script": script, "fail_at": failAt, "via": "direct", "zero_reads": false, "fail_kind": "sentinel", "wfail_kind": "sentinel", "wfail_n": 0}})
 		if i%3 == 0 {
 			emit([]Ev{{"op": "write", "adapter": ad, "data": B(data[:npk*188]), "fail_at": failAt, "wfail_kind": "sentinel", "wfail_n": 0}})
@@ -318,6 +344,8 @@ func (c18) Exec(h []Ev) []Ev {
 		w := &recWriter{failAt: GI(e["fail_at"]), failWith: c18WFail(GS(e["wfail_kind"])), failN: GI0(e["wfail_n"])}
 		e["wfail_n"] = w.failN
 		wr, rf := c18Adapter(GS(e["adapter"]), w)
+		rich := c18Rich
+		e["raw"] = 0
 		e["panic"] = guard(func() {
 			switch GS(e["op"]) {
 			case "write":
@@ -352,6 +380,10 @@ func (c18) Exec(h []Ev) []Ev {
 				}
 				n, err := rf.ReadFrom(rd)
 				e["n"], e["err"] = int(n), c18Err(err, sr.failWith, w.failWith)
+			}
+			e["raw"] = 0
+			if rich != nil {
+				e["raw"] = rich.raw
 			}
 			calls := make([][]int, 0, len(w.calls))
 			for _, c := range w.calls {
@@ -405,7 +437,7 @@ func (c18) Table(rows []Ev, tier string, seed int64, rep *TableReport) {
 			}{expand(m["data"]), GS(m["err"])})
 		}
 		w := &recWriter{failAt: GI(row["fail_at"]), failWith: c18WFail(c18WFailKinds[(ri/40)%len(c18WFailKinds)]), failN: []int{0, 0, 57, 188}[(ri/7)%4]}
-		_, rf := c18Adapter(c18Adapters[ri%4], w)
+		_, rf := c18Adapter(c18Adapters[ri%len(c18Adapters)], w)
 		var n int64
 		var err error
 		pan := guard(func() { n, err = rf.ReadFrom(sr) })
